@@ -25,7 +25,7 @@ fn main() {
         "builder" => builder::run(),
         "sim" => sim::run(),
         "queue" => queue::run(),
-        "session" => session::run(),
+        "session" | "desync" => session::run(),
         "spectator" => spectator::run(),
         "synctest" => synctest::run(),
         "timesync" => timesync::run(),
